@@ -1266,6 +1266,14 @@ class WorkerGateway(BaseGateway):
     _executetask_complete: Event | None = None
 
     def _local_schedulexec(self, channel: Channel, sourcetask: bytes) -> None:
+        try:
+            sourcetask_ = loads_internal(sourcetask)
+        except Exception as exc:
+            # The task cannot be decoded here (for example a channel among
+            # the keyword arguments): tell the caller instead of letting
+            # the receiver thread die with the whole connection.
+            channel.close(self._geterrortext(exc))
+            return
         if self._execpool.execmodel.backend == "main_thread_only":
             assert self._executetask_complete is not None
             # It's necessary to wait for a short time in order to ensure
@@ -1281,7 +1289,6 @@ class WorkerGateway(BaseGateway):
             # that there is not a previous task about to set it again.
             self._executetask_complete.clear()
 
-        sourcetask_ = loads_internal(sourcetask)
         self._execpool.spawn(self.executetask, (channel, sourcetask_))
 
     def _terminate_execution(self) -> None:
